@@ -70,6 +70,11 @@ type mnode struct {
 	down bool // error-reply outage
 	shut bool // server closed
 	dels [][]string
+	// Redis-Cluster mode: the one server stands for all model nodes; a command fails when one
+	// of its arguments is a key placed on a model node that is down (so the per-key DELs of a
+	// multi-key removal fail individually)
+	vdown   map[int]bool
+	keyNode func(arg string) (int, bool)
 }
 
 const outageMsg = "ERR verif: injected outage"
@@ -80,6 +85,14 @@ func (n *mnode) hook(c *server.Peer, cmd string, args ...string) bool {
 	if n.down {
 		c.WriteError(outageMsg)
 		return true
+	}
+	if len(n.vdown) > 0 && n.keyNode != nil {
+		for _, a := range args {
+			if vn, ok := n.keyNode(a); ok && n.vdown[vn] {
+				c.WriteError(outageMsg)
+				return true
+			}
+		}
 	}
 	if strings.EqualFold(cmd, "DEL") {
 		n.dels = append(n.dels, append([]string(nil), args...))
@@ -120,6 +133,8 @@ type env struct {
 	nodes   []*mnode
 	conn    sqlc.CachedConn
 	fault   string            // "error" | "close"
+	rclu    bool              // the cache node's Redis is of ClusterType (one server, model nodes are virtual)
+	mnodes  int               // number of model nodes
 	real    map[string]string // logical key ("p:1", "i:a") -> Redis key
 	logical map[string]string // Redis key -> logical key
 	place   map[string]int    // logical key -> node (1-based)
@@ -157,9 +172,17 @@ func toID(primary any) (int, error) {
 // logical key the node it must live on; with more than one node the Redis key names get a
 // suffix chosen such that the cluster's consistent hash really puts them there (found by
 // storing a probe through the cache and looking where it arrives).
-func newEnv(nnodes int, place map[string]int, ids []int, names []string, expire, nfExpire time.Duration, fault string) (*env, error) {
-	e := &env{fault: fault, real: map[string]string{}, logical: map[string]string{}, place: place, ids: ids, names: names}
-	for i := 1; i <= nnodes; i++ {
+func newEnv(nnodes int, place map[string]int, ids []int, names []string, expire, nfExpire time.Duration, fault, rtype string) (*env, error) {
+	e := &env{fault: fault, real: map[string]string{}, logical: map[string]string{}, place: place, ids: ids, names: names,
+		rclu: rtype == redis.ClusterType, mnodes: nnodes}
+	if e.rclu && fault != "error" {
+		return nil, fmt.Errorf("Redis-Cluster mode supports error-reply outages only")
+	}
+	realNodes := nnodes
+	if e.rclu {
+		realNodes = 1
+	}
+	for i := 1; i <= realNodes; i++ {
 		n, err := newNode(i)
 		if err != nil {
 			return nil, err
@@ -167,7 +190,20 @@ func newEnv(nnodes int, place map[string]int, ids []int, names []string, expire,
 		e.nodes = append(e.nodes, n)
 	}
 	opts := []cache.Option{cache.WithExpire(expire), cache.WithNotFoundExpire(nfExpire)}
-	if nnodes == 1 {
+	if e.rclu {
+		// through the configuration path: cache.New with one node of type "cluster" (go-redis
+		// ClusterClient; miniredis answers CLUSTER SLOTS with itself for all slots)
+		e.conn = sqlc.NewConn(stubConn{}, cache.Config{{Config: redis.Config{Host: e.nodes[0].addr, Type: redis.ClusterType}, Weight: 100}}, opts...)
+		n := e.nodes[0]
+		n.vdown = map[int]bool{}
+		n.keyNode = func(arg string) (int, bool) {
+			lk, ok := e.logical[arg]
+			if !ok {
+				return 0, false
+			}
+			return e.place[lk], true
+		}
+	} else if nnodes == 1 {
 		e.conn = sqlc.NewNodeConn(stubConn{}, redis.New(e.nodes[0].addr), opts...)
 	} else {
 		var cfg cache.Config
@@ -188,7 +224,7 @@ func newEnv(nnodes int, place map[string]int, ids []int, names []string, expire,
 		if !ok || want < 1 || want > nnodes {
 			return nil, fmt.Errorf("no placement for key %s", lk)
 		}
-		if nnodes == 1 {
+		if nnodes == 1 || e.rclu {
 			e.real[lk], e.logical[lk] = lk, lk
 			continue
 		}
@@ -223,10 +259,10 @@ func (e *env) close() {
 
 // reset prepares the environment for the next history.
 func (e *env) reset() error {
+	if err := e.allUp(); err != nil {
+		return err
+	}
 	for _, n := range e.nodes {
-		if err := e.setUp(n, true); err != nil {
-			return err
-		}
 		n.m.FlushAll()
 		n.takeDels()
 	}
@@ -246,6 +282,31 @@ func (e *env) reset() error {
 }
 
 var errRestart = fmt.Errorf("miniredis could not be restarted on its port / did not become reachable again")
+
+// setNode makes model node idx (1-based) reachable or not.
+func (e *env) setNode(idx int, up bool) error {
+	if e.rclu {
+		n := e.nodes[0]
+		n.mu.Lock()
+		if up {
+			delete(n.vdown, idx)
+		} else {
+			n.vdown[idx] = true
+		}
+		n.mu.Unlock()
+		return nil
+	}
+	return e.setUp(e.nodes[idx-1], up)
+}
+
+func (e *env) allUp() error {
+	for i := 1; i <= e.mnodes; i++ {
+		if err := e.setNode(i, true); err != nil {
+			return err
+		}
+	}
+	return nil
+}
 
 func (e *env) setUp(n *mnode, up bool) error {
 	if e.fault == "close" {
@@ -396,7 +457,11 @@ func (e *env) delsNow() []string {
 				if !ok {
 					lk = "?" + rk
 				}
-				out = append(out, fmt.Sprintf("%d/%s", n.idx, lk))
+				nd := n.idx
+				if e.rclu && ok {
+					nd = e.place[lk]
+				}
+				out = append(out, fmt.Sprintf("%d/%s", nd, lk))
 			}
 		}
 	}
@@ -436,7 +501,7 @@ func (e *env) cacheNow() (map[string]int, string) {
 			if !ok {
 				return nil, fmt.Sprintf("unknown key %q on node %d", rk, n.idx)
 			}
-			if e.place[lk] != n.idx {
+			if !e.rclu && e.place[lk] != n.idx {
 				return nil, fmt.Sprintf("key %s stored on node %d, placement says node %d", lk, n.idx, e.place[lk])
 			}
 			val, err := n.m.Get(rk)
@@ -565,7 +630,7 @@ func (cr *caseRunner) run(c kit.Case) (v kit.Verdict) {
 			err := e.conn.SetCache(e.real[pkey(id)], d)
 			gotRes, gotErr = e.classify(err), err
 		case "down", "up":
-			if err := e.setUp(e.nodes[kit.Num(st["node"])-1], op == "up"); err != nil {
+			if err := e.setNode(kit.Num(st["node"]), op == "up"); err != nil {
 				if err == errRestart {
 					cr.rep.Count("abandoned_restart", 1)
 					return v
@@ -575,14 +640,12 @@ func (cr *caseRunner) run(c kit.Case) (v kit.Verdict) {
 			gotRes = "ok"
 		case "adv", "finish":
 			if op == "finish" {
-				for _, n := range e.nodes {
-					if err := e.setUp(n, true); err != nil {
-						if err == errRestart {
-							cr.rep.Count("abandoned_restart", 1)
-							return v
-						}
-						return infra(err.Error())
+				if err := e.allUp(); err != nil {
+					if err == errRestart {
+						cr.rep.Count("abandoned_restart", 1)
+						return v
 					}
+					return infra(err.Error())
 				}
 			}
 			want := map[int][]any{}
@@ -745,6 +808,7 @@ func envFromEnviron() (*env, error) {
 		Place  map[string]int `json:"place"`
 		Ids    []int          `json:"ids"`
 		Names  []string       `json:"names"`
+		RType  string         `json:"rtype"`
 		Expire int            `json:"expire"`
 		NF     int            `json:"nf"`
 	}
@@ -752,7 +816,7 @@ func envFromEnviron() (*env, error) {
 		return nil, fmt.Errorf("VERIF_C06_CFG: %v", err)
 	}
 	return newEnv(cfg.Nodes, cfg.Place, cfg.Ids, cfg.Names, time.Duration(cfg.Expire)*time.Second,
-		time.Duration(cfg.NF)*time.Second, kit.Env("VERIF_C06_FAULT", "error"))
+		time.Duration(cfg.NF)*time.Second, kit.Env("VERIF_C06_FAULT", "error"), cfg.RType)
 }
 
 // forEachCase streams the case file: one line is decoded at a time and only the lines of this
@@ -835,7 +899,7 @@ func TestVerifC06Concurrent(t *testing.T) {
 	rounds, readers := kit.EnvInt("VERIF_C06_ROUNDS", 40), kit.EnvInt("VERIF_C06_READERS", 16)
 	ids := []int{1, 2}
 	e, err := newEnv(1, map[string]int{"p:1": 1, "p:2": 1}, ids, nil,
-		time.Duration(kit.EnvInt("VERIF_C06_E", 30))*time.Second, time.Duration(kit.EnvInt("VERIF_C06_NF", 10))*time.Second, "error")
+		time.Duration(kit.EnvInt("VERIF_C06_E", 30))*time.Second, time.Duration(kit.EnvInt("VERIF_C06_NF", 10))*time.Second, "error", redis.NodeType)
 	if err != nil {
 		tr.Emit(kit.M{"e": "infra", "msg": err.Error()})
 		return
